@@ -127,7 +127,7 @@ Definition file_fuel (file : bytes) : nat := S (length file).
 (* files.go:156-287: the writers *)
 Section Writers.
   Variable M : Type.
-  Variable enc : M -> option bytes.   (* v.Xml() / v.XmlIndent(p,i) / v.Json() / v.JsonIndent(p,i); None = error *)
+  Variable enc : M -> option bytes.   (* v.Xml() / v.XmlIndent(p,i) / v.Json(safeEncoding...) / v.JsonIndent(p,i,safeEncoding...); None = error *)
 
   (* XmlString, XmlStringIndent, JsonString:
        var s string; for _, v := range mvs { x, err := v.Xml(); if err != nil { return s, err }; s += string(x) }; return s, nil *)
@@ -228,18 +228,24 @@ Section Gob.
     end.
 End Gob.
 
-(* What encoding/gob accepts inside an interface{} value without gob.Register: the
-   basic types.  map[string]interface{} and []interface{} are NOT registered by mxj
-   (no init() calls gob.Register), so a nested map or list makes Encode fail with
-   "type not registered for interface".  Environment model, validated on every run. *)
-Definition gob_basic (v : value) : bool :=
+(* What encoding/gob accepts inside an interface{} value: the basic types, and the types
+   registered with gob.Register.  gob.go registers map[string]interface{} and []interface{}
+   in its init() (fix 6a56aba; before it a nested map or list made Encode fail with
+   "type not registered for interface"), so every value of JSON types is transmitted, at
+   any depth; json.Number is a named type nobody registers.  Environment model, validated
+   on every run. *)
+Fixpoint gob_ok (v : value) : bool :=
   match v with
-  | VMap _ | VList _ | VJNum _ => false
+  | VJNum _ => false
+  | VMap m => (fix go (m : entries) : bool :=
+                 match m with [] => true | (_, x) :: t => gob_ok x && go t end) m
+  | VList l => (fix go (l : list value) : bool :=
+                  match l with [] => true | x :: t => gob_ok x && go t end) l
   | _ => true
   end.
 Definition gob_encodable (mv : value) : bool :=
   match mv with
-  | VMap m => forallb (fun kv => gob_basic (snd kv)) m
+  | VMap _ => gob_ok mv
   | _ => false
   end.
 
